@@ -9,8 +9,10 @@ import (
 
 	"bufio"
 	"encoding/binary"
+	"errors"
 	"io"
 	"io/ioutil"
+	"net/http"
 	"sync"
 )
 
@@ -33,6 +35,73 @@ type Connection struct {
 
 	// Serializes encrypt-and-write, so that frames are written in the order of their nonces
 	writeMutex sync.Mutex
+
+	// Finds the end of a request which is received in plaintext
+	plain plainRequest
+}
+
+// plainRequest finds the end of a request which is received in plaintext.
+//
+// Bytes which follow a plaintext request before a response was written are refused. If they
+// were handed on, they would be served after the response – as if they were received encrypted
+// when the request negotiated a cryptographer (pair verify).
+type plainRequest struct {
+	mutex    sync.Mutex
+	header   []byte // request line and header fields until the header is complete
+	body     int64  // remaining bytes of the body
+	inBody   bool
+	complete bool // the request was received, no response was written yet
+}
+
+// accept returns an error when b contains bytes which are not part of the current request.
+func (p *plainRequest) accept(b []byte) error {
+	p.mutex.Lock()
+	defer p.mutex.Unlock()
+
+	for len(b) > 0 {
+		if p.complete {
+			return errors.New("received data before the response was written")
+		}
+
+		if p.inBody {
+			n := int64(len(b))
+			if n > p.body {
+				n = p.body
+			}
+			b = b[n:]
+			p.body -= n
+			p.inBody = p.body > 0
+			p.complete = p.body == 0
+			continue
+		}
+
+		p.header = append(p.header, b[0])
+		b = b[1:]
+		if bytes.HasSuffix(p.header, []byte("\n\n")) || bytes.HasSuffix(p.header, []byte("\n\r\n")) {
+			request, err := http.ReadRequest(bufio.NewReader(bytes.NewReader(p.header)))
+			if err != nil {
+				return err
+			}
+			if request.ContentLength < 0 {
+				return errors.New("request of unknown length")
+			}
+			p.header = nil
+			p.body = request.ContentLength
+			p.inBody = p.body > 0
+			p.complete = p.body == 0
+		} else if len(p.header) > http.DefaultMaxHeaderBytes {
+			return errors.New("request header too long")
+		}
+	}
+
+	return nil
+}
+
+// responseWritten is called before a response is written; the next request may follow.
+func (p *plainRequest) responseWritten() {
+	p.mutex.Lock()
+	p.complete = false
+	p.mutex.Unlock()
 }
 
 // NewConnection returns a hap connection.
@@ -117,6 +186,7 @@ func (con *Connection) Write(b []byte) (n int, err error) {
 	if con.getEncrypter() != nil {
 		n, err = con.EncryptedWrite(b)
 	} else {
+		con.plain.responseWritten()
 		n, err = con.connection.Write(b)
 	}
 
@@ -142,6 +212,14 @@ func (con *Connection) Read(b []byte) (int, error) {
 		received := append([]byte{}, b[:n]...)
 		con.buffered = bufio.NewReaderSize(io.MultiReader(bytes.NewReader(received), con.connection), 2+0xFFFF+16)
 		return con.DecryptedRead(b)
+	}
+
+	if n > 0 {
+		if ferr := con.plain.accept(b[:n]); ferr != nil {
+			log.Debug.Println("Read failed:", ferr)
+			con.connection.Close()
+			return 0, ferr
+		}
 	}
 
 	return n, err
